@@ -34,7 +34,7 @@ impl Tokens {
         self.kinds
             .iter()
             .copied()
-            .zip_eq(self.starts.iter().copied())
+            .zip_eq(self.starts.iter().copied().take(self.kinds.len()))
             .zip_eq(self.starts.iter().copied().skip(1))
             .map(|((kind, start), end)| (kind, TextRange::new(start, end)))
     }
